@@ -22,6 +22,7 @@ func init() {
 
 func runC36(c *core.Ctx) {
 	checkRelayerListLoops(c)
+	accessorPairs(c, "C36.accessor-keys", 4, pkRM)
 	ht := c.Fn(pkTxPool, "TxActor.handleTransaction")
 	ivs := eng.Obj(c, pkTxPool, "TxActor.isValidSender")
 	atw := eng.Obj(c, pkTxPool, "TXPoolServer.assignTxToWorker")
